@@ -85,6 +85,59 @@ pub fn execute(plan: &Plan, ctx: &mut Ctx) {
                         _ => hx((x + d).value),
                     }
                 }
+                // IOP which a b : exact integer operators on Time / DimensionlessInteger
+                "IOP" => {
+                    let (a, b) = (op.arg(1), op.arg(2));
+                    let (ta, tb) = (Time(a), Time(b));
+                    let (da, db) = (DimensionlessInteger(a), DimensionlessInteger(b));
+                    let nz = DimensionlessInteger(if b == 0 { 1 } else { b });
+                    let r: i64 = match op.arg(0) {
+                        0 => (ta + tb).0,
+                        1 => (ta - tb).0,
+                        2 => (ta * db).0,
+                        3 => (ta / nz).0,
+                        4 => (da * tb).0,
+                        5 => (da + db).0,
+                        6 => (da - db).0,
+                        7 => (da * db).0,
+                        8 => (da / nz).0,
+                        9 => (-ta).0,
+                        10 => (-da).0,
+                        11 => {
+                            let mut x = ta;
+                            x += tb;
+                            x.0
+                        }
+                        12 => {
+                            let mut x = ta;
+                            x -= tb;
+                            x.0
+                        }
+                        13 => {
+                            let mut x = ta;
+                            x *= db;
+                            x.0
+                        }
+                        14 => {
+                            let mut x = ta;
+                            x /= nz;
+                            x.0
+                        }
+                        15 => {
+                            let mut x = da;
+                            x *= db;
+                            x.0
+                        }
+                        16 => {
+                            let mut x = da;
+                            x /= nz;
+                            x.0
+                        }
+                        17 => i64::from(ta) + i64::from(DimensionlessInteger::from(b)),
+                        _ => Time::from(a).0 - Time::new(b).0,
+                    };
+                    format!("{}", r)
+                }
                 // ST p v a : load a state
                 "ST" => {
                     state = State::new_raw(op.f(0), op.f(1), op.f(2));
@@ -186,11 +239,39 @@ fn nz(rng: &mut Rng) -> f32 {
     }
 }
 
+/// Operand grid for the exact integer operators: signs, zero, odd/even, powers of two.
+const IGRID: [i64; 12] = [-1_000_001, -7, -5, -2, -1, 0, 1, 2, 3, 4, 8, 1_000_001];
+
 pub fn generate(prop: &str, tier: Tier, rng: &mut Rng, seed: u64, run: u64) -> Plan {
     let ill = prop == "C19ill";
     let mut plan = Plan::new("api", prop, seed, run);
+    // the first 40 api plans of every C19 batch enumerate operator x operand-grid exhaustively
+    // (19 x 12 x 12 = 2736 evaluations, 70 per plan)
+    let chunk = run / 5;
+    if !ill && chunk < 40 {
+        for k in chunk * 70..(chunk * 70 + 70).min(19 * 144) {
+            plan.push("IOP", &[(k / 144) as i64, IGRID[(k / 12 % 12) as usize], IGRID[(k % 12) as usize]]);
+        }
+        if !plan.ops.is_empty() {
+            return plan;
+        }
+    }
     let n = rng.range(4, if tier == Tier::Quick { 16 } else { 32 });
     for _ in 0..n {
+        if !ill && rng.chance(0.15) {
+            // integer operators: small, negative, odd values; powers of two as divisors
+            let v = |rng: &mut Rng| -> i64 {
+                match rng.below(5) {
+                    0 => rng.range(-9, 9),
+                    1 => -(2 * rng.range(0, 1_000_000) + 1),
+                    2 => 1i64 << rng.range(0, 20),
+                    3 => rng.range(-2_000_000_000, 2_000_000_000),
+                    _ => 2 * rng.range(0, 1_000_000) + 1,
+                }
+            };
+            plan.push("IOP", &[rng.below(19) as i64, v(rng), v(rng)]);
+            continue;
+        }
         match rng.below(if ill { 5 } else { 10 }) {
             0 | 1 => {
                 let which = rng.below(12) as i64;
